@@ -765,7 +765,7 @@ def check_prngs(ctx):
                 tr.append(got)
                 rf.append(list(want))
         impl.append((tr, rf))
-        if style in ('idle', 'suite-vectors') or (style == 'protocol' and (kind != 'triv' or bpc >= 16)) or ctx.tier != 'quick':
+        if style in ('idle', 'suite-vectors') or ctx.tier != 'quick' or (style == 'protocol' and (kind, bw) in (('lfsr', 129), ('lfsr', 256), ('xoro', 63), ('xoro', 129), ('triv', 200))):
             exprs_g[ci] = {'lfsr': 'g_lfsr_sum %d %s' % (bw, quads(rle)), 'xoro': 'g_xo_sum %d %s' % (bw, quads(rle)),
                            'triv': 'g_tv_sum %d %d %s' % (bw, bpc or 0, quads(rle))}[kind]
         if kind == 'lfsr':
@@ -835,6 +835,10 @@ def ensure_harness_targets():
     Gen/PrngFrag.v) no longer builds: make them on their own, dependency-exact, under the build lock"""
     import runner
     for t in COQ_TARGETS:
+        vo = os.path.join(runner.COQ, t)
+        v = vo[:-1]
+        if os.path.exists(vo) and os.path.getmtime(vo) >= os.path.getmtime(v):
+            continue                      # already built by the runner's own make
         try:
             runner.build([t])
         except Exception:
